@@ -8,9 +8,9 @@ META = dict(
     bounds="every validated header field is a free full-width symbolic variable (so every single-bit flip of each magic, "
            "every version number and geometry value is covered); QCOW2 x {data-file handle given or not} x {backing: none, "
            "file, ALLOW_NO_BACKING_FILE}; VDI; HDS; VMDK sparse extent header; Hyper-V file/replay-log/object-table headers "
-           "(<= 2 unallocated object-table entries)",
-    outside=["VHDX container gates (region/metadata tables keyed by GUID dictionaries: not encoded)", "ESXi envelope, key "
-             "store and key safe gates (text/attribute parsing through cstruct and io.BytesIO)", "QCOW2 header extensions "
+           "(<= 2 unallocated object-table entries); ESXi envelope header magic/version, required attributes, cipher name, AEAD footer version",
+    outside=["VHDX container gates (region/metadata tables keyed by GUID dictionaries: not encoded)", "key store and key safe "
+             "gates (text parsing); the envelope's attribute *parsing* (its gate runs on a symbolic attribute dictionary)", "QCOW2 header extensions "
              "(cut: they take no part in any gate)", "Parallels image type (expat)"],
     assumptions=["dissect.cstruct layouts as learned from the real parser each run",
                  "accept predicates as listed in the property; QCOW2: unknown incompatible-feature bits are unsupported "
@@ -22,7 +22,7 @@ META = dict(
 def tasks(tier):
     out = [("qcow2", dict(data_file=False, backing="none")), ("qcow2", dict(data_file=True, backing="file")),
            ("qcow2", dict(data_file=False, backing="allow_no")),
-           ("vdi", {}), ("hds", {}), ("vmdk", {}), ("hyperv", {})]
+           ("vdi", {}), ("hds", {}), ("vmdk", {}), ("hyperv", {}), ("envelope", {})]
     return out
 
 
